@@ -26,7 +26,8 @@ RULE = ('Hypothesis draws a fixed-shape tree (depth <=4, keys a,b,c,x), 1..6 '
         'distinct = spec hash.')
 ASSUMPTIONS = [
     'histories have the same shape at every time (statement: "variables exist '
-    'at every emitted time"); no variable is called "time" and no value is None',
+    'at every emitted time"); no variable is called "time"; None values only '
+    'in the pure and RAM-emitter modes (Store.emit_data never emits None)',
 ]
 
 KEYS = ['a', 'b', 'c', 'x']
@@ -315,6 +316,10 @@ def make_setter(spec):
 
 def run_engine(spec, res):
     from vivarium.core.engine import Engine
+    if any(v is None for col in spec['cells'].values() for v in col):
+        # Store.emit_data drops leaves that hold None: not an engine history
+        spec = dict(spec, cells={k: [0 if v is None else v for v in col]
+                                 for k, col in spec['cells'].items()})
     n = len(spec['times'])
     eng = Engine(processes={'setter': make_setter(spec)},
                  topology={'setter': {'clock': ('clock',), 's': ('s',)}},
@@ -356,7 +361,8 @@ def run_case(spec):
 
 # ------------------------------------------------------------------ strategy
 
-TAGS = ['int', 'int', 'float', 'bool', 'str', 'list'] + ['q:' + u for u in UNITS]
+TAGS = ['int', 'int', 'float', 'bool', 'str', 'list', 'opt'] + \
+    ['q:' + u for u in UNITS]
 
 
 def shapes(depth):
@@ -380,6 +386,10 @@ def values_for(tag):
         return st.sampled_from(['', '', 'a', 'xyz', '0'])
     if tag == 'list':
         return st.sampled_from([[], [], [0], [1, 2], ['']])
+    if tag == 'opt':
+        # a variable that is None at some times (also what a nan float becomes
+        # in the RAM emitter)
+        return st.sampled_from([None, None, 'size', 3, 0])
     return st.sampled_from([0, 1, 2.5, 0.0, -3])
 
 
